@@ -14,5 +14,6 @@ def run(ctx):
     sweeps.run_sweep(ctx, "c11", [[s, 240] for s in seeds], "C11")
     rep.exhaustive = True
     rep.need("cases", rep.counters.get("sweep_c11_cases", 0), 145000)
+    rep.need("odd_entry_cases", rep.counters.get("sweep_c11_odd_entry_cases", 0), 100)
     rep.need("straddling_cases", rep.counters.get("sweep_c11_straddling_cases", 0), 200)
     rep.need("clock_advanced_cases", rep.counters.get("sweep_c11_clock_advanced_cases", 0), 15000)
